@@ -213,6 +213,26 @@ def h_step_random_gate(env, N, r, qubits, direction):
 h_step_random_gate.uses_rng = True
 
 
+def h_step_query(env, N, r, which):
+    """read-only queries are operations of a history too: afterwards the state still satisfies Inv (it is unchanged)"""
+    M = Mods(env)
+    gs, ps = sym_state(env, N)
+    state = mk_state(M, env, gs, ps, r)
+    go = env.bits('obs', (1, 2 * N))
+    f = {'entropy0': lambda: state.entropy([0]), 'entropy_last': lambda: state.entropy([N - 1]), 'entropy_mask': lambda: state.entropy(np.array([True] + [False] * (N - 1))),
+         'expect': lambda: state.expect(M.pa.PauliList(go.copy(), env.const([0]))), 'sample': lambda: state.sample(1), 'density_matrix': lambda: state.density_matrix,
+         'to_map': lambda: state.to_map(), 'tokenize': lambda: state.tokenize(), 'stabilizers': lambda: state.stabilizers, 'repr': lambda: repr(state) if N == 1 else None,
+         'copy': lambda: state.copy()}[which]
+    res = env.run(f)
+    env.goal('no_exception', b_not(res.raised))
+    inv_goals(env, state.gs, state.ps, state.r, N, r)
+    env.goal('rank_unchanged', eq(state.r, r))
+    env.goal('tableau_unchanged', b_and(arr_eq(state.gs, gs), arr_eq(state.ps, ps)))
+
+
+h_step_query.uses_rng = True
+
+
 def jobs(tier):
     J = []
     for N in (1, 2, 3):
@@ -247,6 +267,10 @@ def jobs(tier):
                     J.append(dict(harness=('tableau', 'h_measure'), params=dict(N=N, r=r, L=L, goals='inv', repeat=False), timeout_s=300, cost=10 * L))
                 for qs in [q for k in (1, 2) for q in itertools.combinations(range(N), k)]:
                     J.append(dict(harness=('c05', 'h_step_measure_layer'), params=dict(N=N, r=r, qubits=list(qs)), timeout_s=300, cost=8))
+    for N in (2, 3):
+        for r in range(N + 1):
+            for which in (('entropy0', 'entropy_last', 'entropy_mask') if r < N else ()) + (('expect', 'sample', 'density_matrix', 'to_map', 'tokenize', 'stabilizers', 'copy') if N == 2 else ()):
+                J.append(dict(harness=('c05', 'h_step_query'), params=dict(N=N, r=r, which=which), timeout_s=600, cost=10 * N, max_paths=5000))
     # one gate of each kind on an arbitrary Inv state (N=2, all ranks; placement of one- and two-qubit gates)
     N = 2
     for r in range(N + 1):
